@@ -229,6 +229,10 @@ WriteOptLine(name, key, hasKey, v, quote, commented) ==
 \* lines for one option; iniName(o): the key to write (name as read, else ini-name, else field name)
 SortPairs(ps) == LET keys == SortStrs([i \in 1..Len(ps) |-> ps[i][1]]) IN
                  [i \in 1..Len(keys) |-> ps[FirstIdx(ps, LAMBDA p : p[1] = keys[i])]]
+\* map entries as they are written and shown: keys rendered like values (by the key type, in the option's base) and
+\* ordered by the rendered text - "10" before "9" for integer keys
+RenderKey(od, k) == RenderAtom([od EXCEPT !.vtype = od.ktype], k)
+RenderedPairs(od, ps) == SortPairs([i \in 1..Len(ps) |-> <<RenderKey(od, ps[i][1]), ps[i][2]>>])
 OptLines(s, o, iniopts, readName, forceQuote) ==
   LET od == s.opts[o]
       name == IF readName # E THEN readName ELSE IF od.iniName # E THEN od.iniName ELSE od.field
@@ -242,7 +246,7 @@ OptLines(s, o, iniopts, readName, forceQuote) ==
              ELSE [i \in 1..Len(v) |-> WriteOptLine(name, E, FALSE, RenderAtom(od, v[i]), q(RenderAtom(od, v[i])), commented)]
         ELSE IF od.kind = "map" THEN
              IF v = <<>> THEN <<WriteOptLine(name, E, FALSE, E, forceQuote, TRUE)>>
-             ELSE LET sp == SortPairs(v) IN
+             ELSE LET sp == RenderedPairs(od, v) IN
                   [i \in 1..Len(sp) |-> WriteOptLine(name, sp[i][1], TRUE, RenderAtom(od, sp[i][2]), q(RenderAtom(od, sp[i][2])), commented)]
         ELSE IF od.kind \in {"ptr", "ptrflag"} /\ v = <<>> THEN
              \* a nil pointer has no value: the pinned code writes `name =`, which a non-string pointer cannot read back
